@@ -51,6 +51,7 @@ type FuncContract struct {
 	Lenient  bool                // calls without contract give fresh results and are listed (safety sweeps)
 	FrameProps []string          // properties the frame obligations are reported under
 	NoFrame  bool                // no default frame obligation (function is allowed to modify anything it reaches)
+	NoSliceFacts bool            // no automatic "slice-typed loop variables are fresh accumulators" invariants
 	Bounded  string              // name of the bounded stand-in harness test for this function, if any
 	Unverified string            // non-empty: the body is not verified (reason); the contract is an assumption, listed in evidence
 	Replay   string              // name of the harness test that replays a counterexample of this function
@@ -301,6 +302,8 @@ func (cs *ContractSet) LoadLines(path string, lines []string, lineNos []int, pkg
 			cur.Lenient = true
 		case kw == "noframe":
 			cur.NoFrame = true
+		case kw == "noslicefacts":
+			cur.NoSliceFacts = true
 		case kw == "bounded":
 			cur.Bounded = rest
 		case kw == "replay":
